@@ -42,6 +42,15 @@ CLAIMS = {
          "Every FinalizeBlock and Commit of every node in every run must succeed; a failure is reported with the minimised trace.", "5/C18", ""),
  'C19': ("deterministic simulation with crash/restart injection: twin replicas fed identical blocks, restart after commit / between FinalizeBlock and Commit / by injected disk read error; thorough tier restarts the replica after every height",
          "App hash, tx results (code, codespace, gas, data, events) and validator updates compared after every block between a reference node and a replica that is crashed and rebuilt from its SimDB.", "5/C19", ""),
+ 'C10': ("deterministic simulation: at the exact moment (pre-state of each third-party close-positions transaction through the ante wrapper; committed state + new header for the begin-block sweep) the chain's own health functions and trigger prices are evaluated on a discarded cache context; a clearly non-closable position must come out unchanged; every successful open must leave health > safety factor in the final state",
+         "Bots naming arbitrary (owner,id) pairs incl. all positions in one message, racing in any order, price paths hovering around liquidation, stop-loss/take-profit near the market. Exact for single-position messages; 2 % margin when several positions are named in one step.", "5/C10", ""),
+ 'C13': ("deterministic simulation: after every block module balance >= sum of floor(pending) over all pools and holders recomputed in big.Rat from stored accumulators and the commitment ledger; per-holder growth bound (no reward for uncommitted time); drain test on a discarded branch of the state (all holders claim in seeded random order) at sampled heights and at the end of every run",
+         "Swap fees, perpetual revenue, gas fees in several denoms, external incentives with overlapping ranges, joins/exits/bonds/unbonds between distributions, governance toggling Eden rewards / multipliers / reward portions.", "5/C13", ""),
+ 'C17': ("deterministic simulation: every registered elys message type is enumerated by reflection (cosmos.msg.v1.signer); each authority-bearing type (38) is sent by ordinary accounts at random points of every history with reflection-generated content, with real governance content re-signed, and wrapped in authz.MsgExec without grant; owner-scoped messages are pointed at other parties' live positions/orders; oracle = refused AND byte-identical app hash with a differential shadow replica where the refused transaction is replaced by a fee-only stand-in",
+         "Enumeration of message types is a plain loop over the router; the simulation contributes many reachable states and the differential 'state unchanged' oracle. Evidence lists per type whether the refusal came from the handler's authorisation check or from earlier validation.", "5/C17", "assetprofile MsgAddEntry and oracle MsgCreateAssetInfo carry a plain creator and no authority comparison in this snapshot; they are outside the statement (no authority field) and are exercised as ordinary traffic."),
+ 'C20': ("deterministic simulation: reference model per tradeshield transaction on exact pre/post state: wallet + escrow conserved per owner unless one of its orders was legitimately executed, execution requests leave orders/escrow/positions untouched unless the trigger held in the pre-state (chain's own price functions), cancel returns the whole escrow, update/cancel by non-owners never succeed",
+         "Create/update/cancel by owners and non-owners, execution requests from arbitrary senders for arbitrary ids while the trigger is unmet / met / met but the downstream action fails, oracle and pool price moves in the same block.", "5/C20", ""),
+
 }
 NOT_YET = "check not built yet in this revision of /verif (simulation monitor planned in DESIGN.md section 5); not claimed until it runs"
 
